@@ -153,7 +153,7 @@ class AccountingAnswer(Accounting):
         AvpGenDef("nas_port", AVP_NAS_PORT),
         AvpGenDef("nas_port_id", AVP_NAS_PORT_ID),
         AvpGenDef("nas_port_type", AVP_NAS_PORT_TYPE),
-        AvpGenDef("service_stype", AVP_SERVICE_TYPE),
+        AvpGenDef("service_type", AVP_SERVICE_TYPE),
         AvpGenDef("termination_cause", AVP_TERMINATION_CAUSE),
         AvpGenDef("state_class", AVP_CLASS),
     )
@@ -317,7 +317,6 @@ class AccountingRequest(Accounting):
         AvpGenDef("cause", AVP_TGPP_CAUSE, VENDOR_TGPP, type_class=Cause),
 
         AvpGenDef("origin_aaa_protocol", AVP_ORIGIN_AAA_PROTOCOL),
-        AvpGenDef("origin_state_id", AVP_ORIGIN_STATE_ID),
         AvpGenDef("nas_identifier", AVP_NAS_IDENTIFIER),
         AvpGenDef("nas_ip_address", AVP_NAS_IP_ADDRESS),
         AvpGenDef("nas_ipv6_address", AVP_NAS_IPV6_ADDRESS),
@@ -325,7 +324,7 @@ class AccountingRequest(Accounting):
         AvpGenDef("nas_port_id", AVP_NAS_PORT_ID),
         AvpGenDef("nas_port_type", AVP_NAS_PORT_TYPE),
         AvpGenDef("state_class", AVP_CLASS),
-        AvpGenDef("service_stype", AVP_SERVICE_TYPE),
+        AvpGenDef("service_type", AVP_SERVICE_TYPE),
         AvpGenDef("termination_cause", AVP_TERMINATION_CAUSE),
         AvpGenDef("accounting_input_octets", AVP_ACCOUNTING_INPUT_OCTETS),
         AvpGenDef("accounting_input_packets", AVP_ACCOUNTING_INPUT_PACKETS),
